@@ -197,11 +197,12 @@ Record ledger := mkL {
   g_last : option (list tsnap * list ksnap);
   g_prev_failed : bool;            (* the previous op was a refused FIN/REQ/TOUCH: next snapshot must equal g_last *)
   g_flags : list N;                (* violated property numbers *)
+  g_prerestart : option (list tsnap);   (* the last snapshot before a restart *)
   g_gone : list (N * N);           (* ephemeral channels whose last consumer left: must be absent from the next snapshot *)
   g_idx : N;                       (* index of the event being processed (diagnostics) *)
   g_where : list (N * N)           (* (event index, property) of each violation (diagnostics) *)
 }.
-#[export] Instance eta_l : Settable _ := settable! mkL <g_ch; g_tp; g_kl; g_last; g_prev_failed; g_flags; g_gone; g_idx; g_where>.
+#[export] Instance eta_l : Settable _ := settable! mkL <g_ch; g_tp; g_kl; g_last; g_prev_failed; g_flags; g_prerestart; g_gone; g_idx; g_where>.
 
 Definition flag (p : N) (ok : bool) (g : ledger) : ledger :=
   if ok then g else g <| g_flags ::= cons p |> <| g_where ::= cons (g_idx g, p) |>.
@@ -477,6 +478,23 @@ Definition mon_snap (g : ledger) (ts : list tsnap) (ks : list ksnap) : ledger :=
     | None => false
     end in
   let g := flag 3 (negb (existsb starving ks)) g in
+  (* C03: while a topic stays paused its channels receive nothing *)
+  let paused_quiet (tsn : tsnap) : bool :=
+    match find_tl g (ts_id tsn), g_last g with
+    | Some tl, Some (ts0, _) =>
+        match find (fun x => ts_id x =? ts_id tsn) ts0 with
+        | Some t0 =>
+            if tl_paused tl && ts_paused t0 && ts_paused tsn then
+              forallb (fun cs => match find (fun x => cs_id x =? cs_id cs) (ts_chans t0) with
+                                 | Some c0 => cs_msgcount cs =? cs_msgcount c0
+                                 | None => true
+                                 end) (ts_chans tsn)
+            else true
+        | None => true
+        end
+    | _, _ => true
+    end in
+  let g := flag 3 (forallb paused_quiet ts) g in
   (* C02: a refused FIN/REQ/TOUCH changed nothing *)
   let g := if g_prev_failed g then
              match g_last g with
@@ -524,7 +542,7 @@ Definition mon_restart (g : ledger) : ledger :=
   let g := g <| g_ch ::= filter (fun cl => match find_tl g (l_t cl) with Some tl => negb (tl_eph tl) | None => true end) |> in
   let g := g <| g_tp ::= map (fun tl => tl <| tl_pubcount := 0 |> <| tl_pubbytes := 0 |>) |> in
   let g := g <| g_tp ::= filter (fun tl => negb (tl_eph tl)) |> in
-  (g <| g_kl := [] |>) <| g_last := None |>.
+  ((g <| g_kl := [] |>) <| g_prerestart := match g_last g with Some (ts, _) => Some ts | None => None end |>) <| g_last := None |>.
 
 (* C05 structure + C08 ephemeral: after a restart exactly the non-ephemeral topics and
    channels exist, with their paused flags (checked at the first snapshot after it) *)
@@ -537,7 +555,33 @@ Definition mon_restart_snap (g : ledger) (ts : list tsnap) : ledger :=
                                          | Some cs => cl <| l_base := cs_depth cs |>
                                          | None => cl
                                          end) |> in
-  flag 5 (nlist_eqb want_t got_t && chans_ok) g.
+  (* paused flags survive; every message a durable channel held (queued, in flight,
+     deferred) and every message waiting in a durable topic's queue is waiting again *)
+  let flags_ok := forallb (fun tsn =>
+       match find_tl g (ts_id tsn) with
+       | Some tl => Bool.eqb (ts_paused tsn) (tl_paused tl)
+       | None => true
+       end
+       && forallb (fun cs => match find_cl g (ts_id tsn) (cs_id cs) with
+                             | Some cl => Bool.eqb (cs_paused cs) (l_paused cl)
+                             | None => true
+                             end) (ts_chans tsn)) ts in
+  let carried_ok := match g_prerestart g with
+                    | Some ts0 =>
+                        forallb (fun tsn =>
+                          match find (fun x => ts_id x =? ts_id tsn) ts0 with
+                          | Some t0 =>
+                              (ts_depth tsn =? ts_depth t0)
+                              && forallb (fun cs => match find (fun x => cs_id x =? cs_id cs) (ts_chans t0) with
+                                                    | Some c0 => (cs_depth cs =? cs_depth c0 + cs_ifl c0 + cs_dfr c0)
+                                                                 && (cs_ifl cs =? 0) && (cs_dfr cs =? 0)
+                                                    | None => true
+                                                    end) (ts_chans tsn)
+                          | None => true
+                          end) ts
+                    | None => true
+                    end in
+  flag 5 (nlist_eqb want_t got_t && chans_ok && flags_ok && carried_ok) g.
 
 Definition mon_meta (g : ledger) (m : list (N * list N)) : ledger :=
   (* C08: ephemeral topics/channels never reach the persisted metadata *)
@@ -571,12 +615,18 @@ Definition mon_final (g : ledger) : ledger :=
                              match l_owed cl with [] => true | _ => false end) (g_ch g)) g.
 
 Definition flags_of (c : case) : list N :=
-  g_flags (mon_final (mon_run (mkL [] [] [] None false [] [] 0 []) None false (events c))).
+  g_flags (mon_final (mon_run (mkL [] [] [] None false [] None [] 0 []) None false (events c))).
 
-Definition monitor (p : N) (c : case) : bool := negb (mem_n p (flags_of c)).
+(* which ledger checks belong to which property: C05 also demands redelivery with
+   continuing attempts and no reappearance of finished messages (checks 1 and 2 across
+   the restart); C08 also demands that counters stay right (check 13) *)
+Definition concerns (p : N) : list N :=
+  if p =? 5 then [5; 1; 2] else if p =? 8 then [8; 13] else [p].
+Definition monitor (p : N) (c : case) : bool :=
+  negb (existsb (fun f => mem_n f (concerns p)) (flags_of c)).
 
 Definition judge_for (p : N) (c : case) : N := verdict (agree c) (monitor p c).
 
 Definition diag (c : case) : N * list N := (replay_diag (cfg c) init None (events c) 0, flags_of c).
 Definition mon_where (c : case) : list (N * N) :=
-  g_where (mon_final (mon_run (mkL [] [] [] None false [] [] 0 []) None false (events c))).
+  g_where (mon_final (mon_run (mkL [] [] [] None false [] None [] 0 []) None false (events c))).
